@@ -9,6 +9,7 @@ import hashlib, json, math, os, re, struct, sys
 import vf
 sys.path.insert(0, os.path.join(vf.ROOT, "harness"))
 import c01_table as T
+import c01_decls as DECL
 
 AREA = "C01"
 MODEL_FILES = ["Model.v", "Model2.v", "Model3.v"]
@@ -167,6 +168,27 @@ def main(tier, replay=None):
         if body_sha(rel, sig) == fixed_sha:
             live_fixed[name] = fixed_model
     chk.cov["repaired_bodies_live"] = sorted(live_fixed)
+    # 2b. completeness of the call-form table against the declarations of /repo's current headers (clang AST)
+    try:
+        cv = DECL.coverage(T.VARIANTS)
+    except Exception as ex:     # clang missing / crashed
+        cv = {"declarations": 0, "covered": 0, "excluded": [], "unmapped": [], "missing_variants": [], "unreferenced_variants": [], "err": repr(ex)}
+    chk.cov["public_declarations"] = cv["declarations"]
+    chk.cov["declarations_covered_by_call_forms"] = cv["covered"]
+    exr = {}
+    for d, r in cv["excluded"]:
+        exr[r] = exr.get(r, 0) + 1
+    chk.cov["declarations_excluded_by_reason"] = exr
+    if cv["declarations"] == 0:
+        chk.broke("cannot read the declarations of Integer / ZRing<Integer> from /repo's headers (clang AST dump failed)", cv["err"])
+    if cv["unmapped"]:
+        chk.broke("public overloads declared in the headers that the C01 call-form table does not know (new or changed signature): "
+                  + "; ".join(cv["unmapped"][:12]))
+    if cv["missing_variants"]:
+        chk.broke("declarations mapped to call forms the table does not have: " + "; ".join(cv["missing_variants"][:12]))
+    if cv["unreferenced_variants"]:
+        chk.broke("call forms of the table whose declaration is no longer in the headers (removed or changed signature): "
+                  + ", ".join(cv["unreferenced_variants"][:20]))
     # 3. executables
     drv, l1 = vf.ocaml_build(AREA) if os.path.exists(os.path.join(vf.coq_dir(AREA), "ocaml", "model.ml")) else (None, "extraction did not run")
     if drv is None:
@@ -231,11 +253,12 @@ def main(tier, replay=None):
         if got == ["UNKNOWN-VARIANT"]:
             chk.broke("harness does not know variant " + v)
             continue
-        if exp is not None and got != exp:
+        spec_fail = exp is not None and got != exp
+        if spec_fail:
             chk.fail_input(spec["site"], T.klass_of(spec, a),
                            {"variant": v, "args": [T.ser(k, x) for k, x in zip(ks, a)]}, exp, iout[i].strip(),
                            "implementation differs from integer arithmetic over Z")
-        if mout is not None and not spec.get("oracle_only"):
+        if mout is not None and not spec.get("oracle_only") and not spec_fail:   # a failing input is not reported twice
             mg = mout[i].split()
             if mg == ["UNKNOWN-OP"]:
                 unknown_model.add(spec.get("model", v.split("@")[0]))
@@ -243,6 +266,8 @@ def main(tier, replay=None):
             ncorr += 1
             if mg != got:
                 corr_bad.setdefault(v, []).append("args=%s model=%s impl=%s" % (a, mout[i].strip(), iout[i].strip()))
+            elif exp is not None and "verify" not in spec and mg != exp:
+                corr_bad.setdefault(v, []).append("args=%s model=%s spec=%s (model differs from the specification oracle)" % (a, mout[i].strip(), exp))
     for m in sorted(unknown_model):
         chk.broke("model table has no entry " + m)
     for v, l in sorted(corr_bad.items()):
